@@ -43,7 +43,7 @@ R = [
     (r"control_flow_graph/cfg\.rs", r"get_predecessors|get_successors|get_interval|get_true_branch|get_false_branch", r"in control-flow graph", "invariant",
      "block indices stored in predecessor/successor sets and in branch statements are indices of existing blocks (C12: wfProblems of Spec/Cfg.lean is evaluated on every real CFG)"),
     (r"control_flow_graph/cfg\.rs", r"get_true_branch|get_false_branch", r"does not end with an if-statement", "guarded",
-     "the only caller (taint_analysis) calls it while visiting the IfThenElse statement of that block, and a branch is the last statement of its block (theorem C12_shape: branch statements are last in their block)"),
+     "the only caller (taint_analysis) calls it while visiting the IfThenElse statement of that block, and a branch is the last statement of its block (theorem:C12_branch_last)"),
     (r"control_flow_graph/lifting\.rs", r"build_basic_blocks", r"assert!\(matches!\(body", "invariant", "definition bodies are produced by ParseBlock and stay blocks through desugaring (theorem C01_desugar_body_block for templates)"),
     (r"control_flow_graph/lifting\.rs", r"visit_statement", r"is_empty\(\)", "invariant",
      "the children of an InitializationBlock are declarations and substitutions, for which visit_statement returns the empty predecessor set (Model/CfgLift: `simple` statements)"),
